@@ -2,8 +2,8 @@ import TantivyModel.Model.DocSet.Vec
 /-!
 mirrors: src/query/bitset/mod.rs — `BitSetDocSet`: a bitset of 64-bit buckets, a cursor bucket and
 the not yet consumed bits of that bucket. The bitset is represented by the strictly increasing list
-`all` of its members (bucket `b` = the members `d` with `d / 64 = b`); `TinySet`
-(common/src/bitset.rs) is a contract. `seek` beyond `max_value` only sets `doc` (KNOWN_FINDINGS
+`all` of its members (bucket `b` = the members `d` with `d / 64 = b`); that this is what the
+translated `TinySet` words compute is proved in Proofs/DocSet/TinySetBridge.lean (`C13_src_bitset_*`). `seek` beyond `max_value` only sets `doc` (KNOWN_FINDINGS
 `C13:bitset-seek-past-max-not-sticky`); `Fix.bitsetSticky` is the repaired behaviour.
 -/
 namespace TantivyModel.DocSet.BitSet
